@@ -427,7 +427,8 @@ let run_resolve (hosts : string list) : string =
   ^ " calls=" ^ cs
 let run_zc (ops : string list) : string =
   let os = Stdlib.List.map (function "set" -> Resolver.ZSetInstance | "get" -> Resolver.ZGet | "infoOK" -> Resolver.ZServiceInfo true
-                                     | "infoERR" -> Resolver.ZServiceInfo false | "close" -> Resolver.ZClose | w -> failwith ("zop " ^ w)) ops in
+                                     | "infoERR" -> Resolver.ZServiceInfo false | "close" -> Resolver.ZClose
+                                     | "getfail" -> Resolver.ZGetNoSockets | "infofail" -> Resolver.ZServiceInfoNoSockets | w -> failwith ("zop " ^ w)) ops in
   let (_, evs) = Resolver.zrun { Resolver.z_created = false; Resolver.z_inst = None } os in
   Stdlib.String.concat "," (Stdlib.List.map (function Resolver.ZCreated -> "created" | Resolver.ZClosed Resolver.App -> "closedApp"
                                                       | Resolver.ZClosed Resolver.Lib -> "closedLib" | Resolver.ZRaise -> "raise") evs)
